@@ -4,6 +4,9 @@ package props
 // ExampleClaims: embed a base claims type and use the embedding-aware codec.
 
 import (
+	"bytes"
+	"encoding/json"
+
 	cbor "github.com/fxamacker/cbor/v2"
 	"github.com/veraison/eat"
 	psatoken "github.com/veraison/psatoken"
@@ -86,3 +89,108 @@ func registerStandardExt() {
 		}
 	}
 }
+
+// OwnTagClaims is a profile-2 based claims type whose JSON profile member has
+// its own name ("own-profile"); it implements IClaims by delegation.
+type OwnTagClaims struct {
+	Profile *string `json:"own-profile"` // located by field name by the register
+	inner   psatoken.P2Claims
+}
+
+func newOwnTagClaims(name string) *OwnTagClaims {
+	ep := eat.Profile{}
+	if err := ep.Set(name); err != nil {
+		panic(err)
+	}
+	n := name
+	return &OwnTagClaims{Profile: &n, inner: psatoken.P2Claims{Profile: &ep, SwComponents: &psatoken.SwComponents[*psatoken.SwComponent]{}, CanonicalProfile: name}}
+}
+
+func (o *OwnTagClaims) Validate() error                       { return psatoken.ValidateClaims(o) }
+func (o *OwnTagClaims) GetProfile() (string, error)           { return o.inner.GetProfile() }
+func (o *OwnTagClaims) GetClientID() (int32, error)           { return o.inner.GetClientID() }
+func (o *OwnTagClaims) GetSecurityLifeCycle() (uint16, error) { return o.inner.GetSecurityLifeCycle() }
+func (o *OwnTagClaims) GetImplID() ([]byte, error)            { return o.inner.GetImplID() }
+func (o *OwnTagClaims) GetBootSeed() ([]byte, error)          { return o.inner.GetBootSeed() }
+func (o *OwnTagClaims) GetCertificationReference() (string, error) {
+	return o.inner.GetCertificationReference()
+}
+func (o *OwnTagClaims) GetSoftwareComponents() ([]psatoken.ISwComponent, error) {
+	return o.inner.GetSoftwareComponents()
+}
+func (o *OwnTagClaims) GetNonce() ([]byte, error)           { return o.inner.GetNonce() }
+func (o *OwnTagClaims) GetInstID() ([]byte, error)          { return o.inner.GetInstID() }
+func (o *OwnTagClaims) GetVSI() (string, error)             { return o.inner.GetVSI() }
+func (o *OwnTagClaims) SetClientID(v int32) error           { return o.inner.SetClientID(v) }
+func (o *OwnTagClaims) SetSecurityLifeCycle(v uint16) error { return o.inner.SetSecurityLifeCycle(v) }
+func (o *OwnTagClaims) SetImplID(v []byte) error            { return o.inner.SetImplID(v) }
+func (o *OwnTagClaims) SetBootSeed(v []byte) error          { return o.inner.SetBootSeed(v) }
+func (o *OwnTagClaims) SetCertificationReference(v string) error {
+	return o.inner.SetCertificationReference(v)
+}
+func (o *OwnTagClaims) SetSoftwareComponents(v []psatoken.ISwComponent) error {
+	return o.inner.SetSoftwareComponents(v)
+}
+func (o *OwnTagClaims) SetNonce(v []byte) error  { return o.inner.SetNonce(v) }
+func (o *OwnTagClaims) SetInstID(v []byte) error { return o.inner.SetInstID(v) }
+func (o *OwnTagClaims) SetVSI(v string) error    { return o.inner.SetVSI(v) }
+
+func (o OwnTagClaims) MarshalCBOR() ([]byte, error) { return extEM.Marshal(&o.inner) }
+func (o *OwnTagClaims) UnmarshalCBOR(d []byte) error {
+	return o.inner.UnmarshalCBOR(d)
+}
+func (o OwnTagClaims) MarshalJSON() ([]byte, error) {
+	b, err := json.Marshal(&o.inner)
+	if err != nil {
+		return nil, err
+	}
+	return bytes.Replace(b, []byte(`"eat-profile":`), []byte(`"own-profile":`), 1), nil
+}
+func (o *OwnTagClaims) UnmarshalJSON(d []byte) error {
+	var m map[string]json.RawMessage
+	if err := json.Unmarshal(d, &m); err != nil {
+		return err
+	}
+	if v, ok := m["own-profile"]; ok {
+		m["eat-profile"] = v
+		delete(m, "own-profile")
+	}
+	b, err := json.Marshal(m)
+	if err != nil {
+		return err
+	}
+	return o.inner.UnmarshalJSON(b)
+}
+
+// OwnTagProfile registers OwnTagClaims.
+type OwnTagProfile struct{ Name string }
+
+func (p OwnTagProfile) GetName() string             { return p.Name }
+func (p OwnTagProfile) GetClaims() psatoken.IClaims { return newOwnTagClaims(p.Name) }
+
+// claims types the register must refuse
+type noProfileFieldClaims struct {
+	X *int `cbor:"1,keyasint" json:"x"`
+	psatoken.IClaims
+}
+type noJSONTagClaims struct {
+	Profile *string `cbor:"265,keyasint"`
+	psatoken.IClaims
+}
+
+// BadProfile yields a claims type without an identifiable profile field (kind 0) or without a json tag on it (kind 1).
+type BadProfile struct {
+	Name string
+	Kind int
+}
+
+func (p BadProfile) GetName() string { return p.Name }
+func (p BadProfile) GetClaims() psatoken.IClaims {
+	if p.Kind == 0 {
+		return &noProfileFieldClaims{}
+	}
+	return &noJSONTagClaims{}
+}
+
+// psaIClaims is the claims interface (alias for type assertions in the harness).
+type psaIClaims = psatoken.IClaims
